@@ -45,6 +45,9 @@ EXPECT = {
     "seed-C01-n": ["C01"], "seed-C02-n": ["C02"], "seed-C03-n": ["C03"], "seed-C04-n": ["C04", "C05"], "seed-C05-n": ["C05"], "seed-C07-n": ["C07"],
     "seed-C08-n": ["C08", "C07"], "seed-C12-n": ["C12", "C02"], "seed-C13-n": ["C13"], "seed-C16-n": ["C16"],
     "seed-C01-o": ["C08"], "seed-C02-o": ["C02", "C04"], "seed-C03-o": ["C03"], "seed-C04-o": ["C04"], "seed-C05-o": ["C05"], "seed-C06-o": ["C06"],
+    "seed-C02-p": ["C02"], "seed-C03-p": ["C03"], "seed-C05-p": ["C05"], "seed-C06-p": ["C06"], "seed-C09-p": ["C09"], "seed-C10-p": ["C10"],
+    "seed-C12-p": ["C12", "C05", "C11"], "seed-C13-p": ["C13"], "seed-C14-p": ["C14", "C13"], "seed-C15-p": ["C15"], "seed-C16-p": ["C16"], "seed-C17-p": ["C17"],
+    "seed-C18-p": ["C18", "C19"], "seed-C19-p": ["C19"],
     "seed-C07-o": ["C07"], "seed-C08-o": ["C08"], "seed-C10-o": ["C10"], "seed-C11-o": ["C11"], "seed-C13-o": ["C13"], "seed-C16-o": ["C16"], "seed-C19-o": ["C19"],
 }
 
